@@ -22,6 +22,14 @@ type Term struct {
 	// Redecl: declared once without and once more with its explicit number
 	// (as examples/*.y do: %token <val> NUM ... %token NUM 100)
 	Redecl bool `json:"redecl,omitempty"`
+	// RedeclMode (when not 0) generalises Redecl: the token is declared twice,
+	// 1: "%token <tag> NAME" then "%token NAME code" (= Redecl),
+	// 2: "%token NAME code" then "%token <tag> NAME",
+	// 3: "%token NAME" then "%token <tag> NAME code".
+	// RedeclLate puts the second declaration after all other %token lines
+	// instead of directly after the first one's line.
+	RedeclMode int  `json:"redeclmode,omitempty"`
+	RedeclLate bool `json:"redecllate,omitempty"`
 	// TagViaType: the value tag is declared with a separate "%type <tag> NAME"
 	// line instead of "%token <tag> NAME"
 	TagViaType bool `json:"tagviatype,omitempty"`
@@ -54,19 +62,24 @@ type NonTerm struct {
 }
 
 type Rule struct {
-	LHS    int    `json:"lhs"`            // index into NTs
-	RHS    []int  `json:"rhs"`            // < len(Terms): terminal; else len(Terms)+nt
-	Prec   int    `json:"prec"`           // -1 or terminal index named by %prec
+	LHS    int    `json:"lhs"`              // index into NTs
+	RHS    []int  `json:"rhs"`              // < len(Terms): terminal; else len(Terms)+nt
+	Prec   int    `json:"prec"`             // -1 or terminal index named by %prec
 	Action string `json:"action,omitempty"` // text including the braces, "" = none
 	Sem    *Sem   `json:"sem,omitempty"`    // abstract semantic action (tier G)
 	// NoAct: the driver file gives this rule no action at all (its reductions
 	// are then not recorded and its value is whatever the parser defaults to)
 	NoAct bool `json:"noact,omitempty"`
+	// Plain: the driver file writes the action the way a user would,
+	// "{ $$ = ... }", without the recording call (the reduction is then not
+	// recorded; the value still is what C07 speaks of)
+	Plain bool `json:"plain,omitempty"`
 }
 
 // Sem is an abstract semantic action whose text is the same in Go and
 // TypeScript. Kind "lin": $$ = (C0 + sum Coef*$Pos) % SemMod over integer
 // fields. Kind "cat": $$ = concatenation of string literals and $Pos values.
+// Kind "copy": $$ = $Pos (Terms[0].Pos), both of the same type.
 // Kind "none": no assignment (the lhs carries no tag).
 type Sem struct {
 	Kind  string    `json:"kind"`
@@ -93,6 +106,8 @@ func (m *Sem) Text() string {
 		return ""
 	}
 	switch m.Kind {
+	case "copy":
+		return fmt.Sprintf("$$ = $%d", m.Terms[0].Pos)
 	case "lin":
 		e := fmt.Sprint(m.C0)
 		for _, t := range m.Terms {
@@ -136,10 +151,10 @@ type Spec struct {
 	// concatenates the blocks
 	Prologue2 string `json:"prologue2,omitempty"`
 	// TwoPrologues: SetLang also writes a second, language-specific block
-	TwoPrologues bool `json:"twoprologues,omitempty"`
-	Union    string      `json:"union"`    // text between %union { and }
-	Epilogue string      `json:"epilogue"` // text after the second %%
-	NoUnion  bool        `json:"nounion,omitempty"`
+	TwoPrologues bool   `json:"twoprologues,omitempty"`
+	Union        string `json:"union"`    // text between %union { and }
+	Epilogue     string `json:"epilogue"` // text after the second %%
+	NoUnion      bool   `json:"nounion,omitempty"`
 	// OmitStart: write no %start line; only meaningful when the start symbol is
 	// literally named "start" (the documented default)
 	OmitStart bool `json:"omitstart,omitempty"`
@@ -147,8 +162,8 @@ type Spec struct {
 	// constant for the end marker, as examples/e.y does; not a grammar symbol
 	EOFAlias string `json:"eofalias,omitempty"`
 	// OneLineUnion: the %union body is written on one line, "{ f0 int; f1 int }"
-	OneLineUnion bool `json:"onelineunion,omitempty"`
-	Fields   []string    `json:"fields,omitempty"` // abstract union fields (integers)
+	OneLineUnion bool     `json:"onelineunion,omitempty"`
+	Fields       []string `json:"fields,omitempty"` // abstract union fields (integers)
 }
 
 func (s *Spec) NT() int { return len(s.Terms) }
@@ -334,29 +349,64 @@ func (s *Spec) Render(o RenderOpts) string {
 	// %token lines: group consecutive terminals with the same tag on one
 	// line or split them, by layout choice.
 	var pending []Term
+	var late []Term
+	mode := func(t Term) int {
+		if t.IsLit() {
+			return 0
+		}
+		if t.RedeclMode != 0 {
+			return t.RedeclMode
+		}
+		if t.Redecl && t.Code != 0 {
+			return 1
+		}
+		return 0
+	}
+	// the tag shown by the first declaration
+	firstTag := func(t Term) string {
+		if m := mode(t); m == 2 || m == 3 {
+			return ""
+		}
+		return t.Tag
+	}
+	second := func(t Term) {
+		m := mode(t)
+		w("%token")
+		if m != 1 && t.Tag != "" && !t.TagViaType {
+			p("<")
+			w(t.Tag)
+			p(">")
+		}
+		w(t.Name)
+		if m != 2 && t.Code != 0 {
+			w(fmt.Sprint(t.Code))
+		}
+		nl()
+	}
 	flush := func() {
 		if len(pending) == 0 {
 			return
 		}
 		w("%token")
-		if pending[0].Tag != "" && !pending[0].TagViaType {
+		if firstTag(pending[0]) != "" && !pending[0].TagViaType {
 			p("<")
 			w(pending[0].Tag)
 			p(">")
 		}
 		for _, t := range pending {
 			termTok(t)
-			if t.Code != 0 && !t.IsLit() && !t.Redecl {
+			if m := mode(t); t.Code != 0 && !t.IsLit() && (m == 0 || m == 2) {
 				w(fmt.Sprint(t.Code))
 			}
 		}
 		nl()
 		for _, t := range pending {
-			if t.Redecl && t.Code != 0 && !t.IsLit() {
-				w("%token")
-				w(t.Name)
-				w(fmt.Sprint(t.Code))
-				nl()
+			if mode(t) != 0 {
+				if t.RedeclLate {
+					late = append(late, t)
+				} else {
+					second(t)
+				}
 			}
 		}
 		pending = nil
@@ -369,8 +419,8 @@ func (s *Spec) Render(o RenderOpts) string {
 		// as that token's alias (Parser.go:parseTokendef), so a literal never
 		// follows a name on the same %token line
 		aliasPos := len(pending) > 0 && t.IsLit() && !pending[len(pending)-1].IsLit()
-		if len(pending) > 0 && (pending[0].Tag != t.Tag || pending[0].TagViaType || t.TagViaType || aliasPos || L.Choice(2) == 0) {
-			if pending[0].Tag == t.Tag {
+		if len(pending) > 0 && (firstTag(pending[0]) != firstTag(t) || pending[0].TagViaType || t.TagViaType || aliasPos || L.Choice(2) == 0) {
+			if firstTag(pending[0]) == firstTag(t) {
 				st.SplitDecls++
 			}
 			flush()
@@ -378,6 +428,9 @@ func (s *Spec) Render(o RenderOpts) string {
 		pending = append(pending, t)
 	}
 	flush()
+	for _, t := range late {
+		second(t)
+	}
 	if s.EOFAlias != "" {
 		w("%token")
 		w(s.EOFAlias)
